@@ -72,6 +72,28 @@ def candidates():
                             continue
                         new = str(int(m.group(1)) + 1)
                     out.append((f, i, m.start(), m.end(), new, line))
+    if os.environ.get("MUT_OPS", "token") == "stmt":
+        out = []
+        for f in files:
+            lines = open(f"/repo/{f}").read().split("\n")
+            in_test = False
+            for i, line in enumerate(lines):
+                st = line.strip()
+                if st.startswith("#[cfg(test)]"):
+                    in_test = True
+                if in_test or st.startswith("//") or st.startswith("macro_rules") :
+                    continue
+                nxt = lines[i + 1].strip() if i + 1 < len(lines) else ""
+                # a guard whose body starts with an error return: disable the guard
+                if st.startswith("if ") and st.endswith("{") and (nxt.startswith("return Err(") or nxt.startswith("return (true") or nxt.startswith("return Poll::Ready(Err(") or nxt.startswith("Err(")):
+                    a = line.index("if ") + 3
+                    out.append((f, i, a, a, "false && ", line))
+                    out.append((f, i, a, len(line) - 1, "!(" + line[a:len(line) - 1].strip() + ") ", line))
+                # delete a side-effect statement
+                if (st.endswith(";") and not st.startswith("let ") and not st.startswith("return") and not st.startswith("pub ") and not st.startswith("use ")
+                        and not st.startswith("type ") and not st.startswith("const ") and not st.startswith("}") and "=>" not in st and len(st) > 3):
+                    indent = len(line) - len(line.lstrip())
+                    out.append((f, i, indent, len(line), "{}", line))
     # dedupe
     seen = set(); res = []
     for c in out:
